@@ -224,7 +224,7 @@ pub fn call(name: &str, args: &[V]) -> R {
                 if (*c as u32) <= 255 {
                     R::Ok(V::Byte(*c as u32 as u8))
                 } else {
-                    R::Unspecified("byte of a char above U+00FF")
+                    R::Ok(V::Null) // one rule: outside 0..=255 there is no byte
                 }
             }
             V::Bool(b) => R::Ok(V::Byte(*b as u8)),
@@ -339,10 +339,18 @@ pub fn call(name: &str, args: &[V]) -> R {
                 if (0..=18).contains(n) && f.is_finite() && f.abs() >= 4503599627370496.0 {
                     return R::Ok(V::Float(*f));
                 }
-                if *n < 0 || *n > 15 || !f.is_finite() || f.abs() > 1e15 {
+                if *n < 0 || *n > 18 || !f.is_finite() {
                     return R::Unspecified("round with a precision/magnitude the docs do not cover");
                 }
                 let m = 10f64.powi(*n as i32);
+                if (f * m).abs() >= 4503599627370496.0 {
+                    // scaling has used up the fractional bits: the answer is the double nearest to the
+                    // exact decimal expansion of f rounded at n digits (std's formatting is exact)
+                    return R::Ok(V::Float(format!("{:.*}", *n as usize, f).parse().unwrap()));
+                }
+                if *n > 15 || f.abs() > 1e15 {
+                    return R::Unspecified("round with a precision/magnitude the docs do not cover");
+                }
                 R::Ok(V::Float((f * m).round() / m))
             }
             _ => R::Err,
